@@ -18,33 +18,41 @@ def run(tier, seed):
     rc2 = common.run_enum(PID, tier, seed, "MC_Spelling", "syntax", ["Spelling_q.cfg" if q else "Spelling_t.cfg"],
         [("Spelling_w_slash_not_delimiter.cfg", "slash_not_delimiter")], actions=[], rule="", assumptions=[])
     ev2 = json.load(open(os.path.join(vlib.EVID, PID + ".json")))
-    c1, c2 = ev1["coverage"], ev2["coverage"]
+    os.rename(os.path.join(vlib.WORK, PID, "report.json"), os.path.join(vlib.WORK, PID, "report_syntax.json"))
+    rc3 = common.run_enum(PID, tier, seed, "MC_StrLit", "lexer", ["StrLit_q.cfg" if q else "StrLit_t.cfg"],
+        [("StrLit_w_%s.cfg" % d, d) for d in ("octal_takes_decimal_digits", "continuation_cr_only", "unknown_escape_keeps_backslash", "raw_cr_kept")], actions=[], rule="", assumptions=[])
+    ev3 = json.load(open(os.path.join(vlib.EVID, PID + ".json")))
+    rc2 = rc2 or rc3
+    c1, c2, c3 = ev1["coverage"], ev2["coverage"], ev3["coverage"]
     cov = {
-        "states": c1["states"] + c2["states"], "transitions": c1["transitions"] + c2["transitions"],
-        "traces_validated_against_impl": c1["traces_validated_against_impl"] + c2["traces_validated_against_impl"],
+        "states": c1["states"] + c2["states"] + c3["states"], "transitions": c1["transitions"] + c2["transitions"] + c3["transitions"],
+        "traces_validated_against_impl": c1["traces_validated_against_impl"] + c2["traces_validated_against_impl"] + c3["traces_validated_against_impl"],
         "samples": c1["samples"][:1] + c2["samples"][:2],
-        "evaluations": c1["evaluations"] + c2["evaluations"], "distinct_nontrivial": c1["distinct_nontrivial"] + c2["distinct_nontrivial"],
+        "evaluations": c1["evaluations"] + c2["evaluations"] + c3["evaluations"], "distinct_nontrivial": c1["distinct_nontrivial"] + c2["distinct_nontrivial"] + c3["distinct_nontrivial"],
         "rule": "tokens: every byte string of length <= 4 (quick) / 5-6 (thorough) over 12 representative bytes (SP FF NUL CR LF % / < > [ 1 a): token boundaries of "
                 "Lexer::next must equal those of the spec's reference tokenizer; spellings: every atom kind in every spelling variant (signs, leading zeros, .5, 4., #xx names, "
                 "escapes, octal codes, line continuations, raw end-of-lines, balanced parentheses, hex strings with white-space / odd digits, references) x every separator "
                 "(SP TAB LF CR CRLF FF NUL, comments ended by LF or CR, none where legal) x context (end of buffer, followed by an integer / a name / endobj / an operator), "
                 "arrays, dictionaries (keys with #xx) and nested containers of two atoms with every adjacency, streams with LF / CRLF after the keyword; oracle: the "
                 "harness' reference parser (refparse.rs) on the object's own text; checked: value, exact consumption (Lexer::get_pos), the follower parses next; "
-                "non-trivial = more than one item or a separator other than a space",
+                "non-trivial = more than one item or a separator other than a space; literal strings (spec/StrLit.tla): every byte string of length <= 5 (quick) / 6 (thorough) over "
+                "{backslash ( ) 1 7 8 n x CR LF} after an opening parenthesis, value and end position computed by the spec's transcription of ISO 32000-1 7.3.4.2 "
+                "(named escapes, 1-3 octal digits, line continuation, ignored backslash, end-of-line normalisation, balanced parentheses); unterminated input must be rejected",
         "exhaustive": True,
         "tokens": {k: c1[k] for k in ("tlc_runs", "deviation_witnesses_refuted", "harness_counters", "cases_replayed")},
         "spellings": {k: c2[k] for k in ("tlc_runs", "deviation_witnesses_refuted", "harness_counters", "cases_replayed")},
-        "known_findings_hit": sorted(set(c1["known_findings_hit"]) | set(c2["known_findings_hit"])),
+        "literal_strings": {k: c3[k] for k in ("tlc_runs", "deviation_witnesses_refuted", "harness_counters", "cases_replayed")},
+        "known_findings_hit": sorted(set(c1["known_findings_hit"]) | set(c2["known_findings_hit"]) | set(c3["known_findings_hit"])),
     }
     vlib.write_evidence(PID, tier, seed, "model_checking", cov,
         ["integer tokens outside the 32-bit range, names that are not UTF-8 after # decoding and generations > 65535 are not generated (DESIGN 5.21)",
          "decimal -> f32 rounding is not modelled; reals are compared after conversion to f32",
          "the reference parser (harness/src/refparse.rs) is written from ISO 32000-1 7.2-7.3 independently of the library"],
-        time.time() - t0, ev1.get("violations", 0) + ev2.get("violations", 0))
+        time.time() - t0, ev1.get("violations", 0) + ev2.get("violations", 0) + ev3.get("violations", 0))
     return 1 if (rc1 or rc2) else 0
 
 
 def replay(path, seed):
     rec = json.load(open(path))
-    mod = "lexer" if "bytes" in rec.get("case", {}) else "syntax"
+    mod = "lexer" if "bytes" in rec.get("case", {}) else "syntax"      # token and literal-string cases both carry `bytes`
     return common.replay_generic(PID, mod, path, opts=(), show=("class", "text", "expected", "observed"))
